@@ -28,13 +28,13 @@ EXTENDS TraceLib
 
 CONSTANT Slack      \* microseconds of tolerance on "by then" bounds (generous, one-sided)
 
-VARIABLES held, alive, exp, replyLost, unlockedAt, casAfter, wacq, kind, ttl, l
+VARIABLES held, holder, alive, exp, cexp, replyLost, unlockedAt, casAfter, wacq, kind, ttl, l
 
 Ev == Trace[l]
-vars == <<held, alive, exp, replyLost, unlockedAt, casAfter, wacq, kind, ttl, l>>
+vars == <<held, holder, alive, exp, cexp, replyLost, unlockedAt, casAfter, wacq, kind, ttl, l>>
 Same(v) == UNCHANGED v
 
-Init == /\ held = FALSE /\ alive = TRUE /\ exp = 0 /\ replyLost = FALSE
+Init == /\ held = FALSE /\ holder = 1 /\ alive = TRUE /\ exp = 0 /\ cexp = 0 /\ replyLost = FALSE
         /\ unlockedAt = -1 /\ casAfter = 0 /\ wacq = FALSE /\ kind = "" /\ ttl = 0 /\ l = 1
 
 \* (a) applies.  It is enforced after a reply-lost renewal too: the checker then classifies the
@@ -42,21 +42,24 @@ Init == /\ held = FALSE /\ alive = TRUE /\ exp = 0 /\ replyLost = FALSE
 Protected == held /\ alive
 
 Reset == /\ Ev.e = "reset"
-         /\ held' = FALSE /\ alive' = TRUE /\ exp' = 0 /\ replyLost' = FALSE
+         /\ held' = FALSE /\ holder' = 1 /\ alive' = TRUE /\ exp' = 0 /\ cexp' = 0 /\ replyLost' = FALSE
          /\ unlockedAt' = -1 /\ casAfter' = 0 /\ wacq' = FALSE /\ kind' = Ev.kind /\ ttl' = Ev.ttl
 
-Acq == /\ Ev.e = "acq" /\ Ev.p = 1
-       /\ held' = TRUE /\ unlockedAt' = -1 /\ casAfter' = 0
-       /\ Same(<<alive, exp, replyLost, wacq, kind, ttl>>)
+\* the caller under observation: caller 1 first; in the death scenario the waiter (caller 3) once it has
+\* acquired - it waited long for the lock, and its own lease must be in order from then on
+Acq == /\ Ev.e = "acq"
+       /\ held' = TRUE /\ holder' = Ev.p /\ alive' = TRUE /\ unlockedAt' = -1 /\ casAfter' = 0
+       /\ exp' = IF Ev.p = holder THEN exp ELSE cexp      \* a new holder: the expiration its own Create wrote
+       /\ Same(<<cexp, replyLost, wacq, kind, ttl>>)
 
 Create == /\ Ev.e = "create"
-          /\ IF Ev.p = 1
-             THEN exp' = IF Ev.res = "ok" THEN Ev.exp ELSE exp
+          /\ IF Ev.p = holder
+             THEN exp' = (IF Ev.res = "ok" THEN Ev.exp ELSE exp) /\ cexp' = cexp
              ELSE /\ Protected => Ev.res # "ok"          \* nobody else creates the record while it is held
-                  /\ exp' = exp
-          /\ Same(<<held, alive, replyLost, unlockedAt, casAfter, wacq, kind, ttl>>)
+                  /\ exp' = exp /\ cexp' = IF Ev.res = "ok" THEN Ev.exp ELSE cexp
+          /\ Same(<<held, holder, alive, replyLost, unlockedAt, casAfter, wacq, kind, ttl>>)
 
-Cas == /\ Ev.e = "cas" /\ Ev.p = 1
+Cas == /\ Ev.e = "cas" /\ Ev.p = holder
        /\ IF Ev.res = "dead" THEN Same(<<exp, replyLost, casAfter>>)
           ELSE IF held
           THEN /\ Protected => Ev.res \in {"ok", "lost", "replylost"}      \* (a): the holder's record is there
@@ -69,43 +72,48 @@ Cas == /\ Ev.e = "cas" /\ Ev.p = 1
                /\ casAfter' = 1 /\ Same(<<exp, replyLost>>)
           ELSE \* between rel and unlocked: a renewal in flight may still succeed or fail
                Same(<<exp, replyLost, casAfter>>)
-       /\ Same(<<held, alive, unlockedAt, wacq, kind, ttl>>)
+       /\ Same(<<held, holder, alive, cexp, unlockedAt, wacq, kind, ttl>>)
 
-Del == /\ Ev.e = "del" /\ Same(<<held, alive, exp, replyLost, unlockedAt, casAfter, wacq, kind, ttl>>)
+\* renewal calls of a caller that is not (any more) the one under observation: a dead process's calls
+\* never reach the store
+CasOther == /\ Ev.e = "cas" /\ Ev.p # holder /\ Ev.res = "dead"
+            /\ Same(<<held, holder, alive, exp, cexp, replyLost, unlockedAt, casAfter, wacq, kind, ttl>>)
+
+Del == /\ Ev.e = "del" /\ Same(<<held, holder, alive, exp, cexp, replyLost, unlockedAt, casAfter, wacq, kind, ttl>>)
 
 Probe == /\ Ev.e = "probe"
          /\ Protected => Ev.present                                                   \* (a)
          /\ (~alive /\ ~wacq /\ Ev.t > exp + Slack) => ~Ev.present                     \* (b)
-         /\ Same(<<held, alive, exp, replyLost, unlockedAt, casAfter, wacq, kind, ttl>>)
+         /\ Same(<<held, holder, alive, exp, cexp, replyLost, unlockedAt, casAfter, wacq, kind, ttl>>)
 
 Try == /\ Ev.e = "try"
        /\ Protected => ~Ev.ok                                                          \* (a)
-       /\ Same(<<held, alive, exp, replyLost, unlockedAt, casAfter, wacq, kind, ttl>>)
+       /\ Same(<<held, holder, alive, exp, cexp, replyLost, unlockedAt, casAfter, wacq, kind, ttl>>)
 
 Rel == /\ Ev.e = "rel"
-       /\ held' = IF Ev.p = 1 THEN FALSE ELSE held
-       /\ Same(<<alive, exp, replyLost, unlockedAt, casAfter, wacq, kind, ttl>>)
+       /\ held' = IF Ev.p = holder THEN FALSE ELSE held
+       /\ Same(<<holder, alive, exp, cexp, replyLost, unlockedAt, casAfter, wacq, kind, ttl>>)
 
 Unlocked == /\ Ev.e = "unlocked"
-            /\ unlockedAt' = IF Ev.p = 1 THEN Ev.t ELSE unlockedAt
-            /\ Same(<<held, alive, exp, replyLost, casAfter, wacq, kind, ttl>>)
+            /\ unlockedAt' = IF Ev.p = holder THEN Ev.t ELSE unlockedAt
+            /\ Same(<<held, holder, alive, exp, cexp, replyLost, casAfter, wacq, kind, ttl>>)
 
 Die == /\ Ev.e = "die" /\ alive' = FALSE
-       /\ Same(<<held, exp, replyLost, unlockedAt, casAfter, wacq, kind, ttl>>)
+       /\ Same(<<held, holder, exp, cexp, replyLost, unlockedAt, casAfter, wacq, kind, ttl>>)
 
 WAcq == /\ Ev.e = "wacq"
         /\ ~Protected                                   \* (a): not while a live holder holds
         /\ ~alive => Ev.t <= exp + Slack                \* (b): promptly after the lease ran out
         /\ wacq' = TRUE
-        /\ Same(<<held, alive, exp, replyLost, unlockedAt, casAfter, kind, ttl>>)
+        /\ Same(<<held, holder, alive, exp, cexp, replyLost, unlockedAt, casAfter, kind, ttl>>)
 
 \* the waiter giving up after the holder died is (b) violated: never consumable
 End == /\ Ev.e = "end"
        /\ (kind = "death") => wacq
-       /\ Same(<<held, alive, exp, replyLost, unlockedAt, casAfter, wacq, kind, ttl>>)
+       /\ Same(<<held, holder, alive, exp, cexp, replyLost, unlockedAt, casAfter, wacq, kind, ttl>>)
 
 Next == /\ l <= Len(Trace) /\ l' = l + 1
-        /\ \/ Reset \/ Acq \/ Create \/ Cas \/ Del \/ Probe \/ Try \/ Rel \/ Unlocked \/ Die \/ WAcq \/ End
+        /\ \/ Reset \/ Acq \/ Create \/ Cas \/ CasOther \/ Del \/ Probe \/ Try \/ Rel \/ Unlocked \/ Die \/ WAcq \/ End
 
 Spec == Init /\ [][Next]_vars
 Accepted == AcceptByDiameter
